@@ -83,7 +83,7 @@ def ulp_neighbours(x):
 def run(ctx):
     rnd = random.Random(ctx.seed)
     thorough = ctx.tier == "thorough"
-    st = core.proof_stage(ctx, [], ["Pure/DimsCheck.vo", "Props/C07.vo"], "Props/C07.v", THEOREMS)
+    st = core.proof_stage(ctx, [], ["Pure/DimsCheck.vo", "Pure/DimLinkCheck.vo", "Props/C07.vo"], "Props/C07.v", THEOREMS)
     ctx.trusted_base = [
         "Coq 8.16.1 kernel (QArith, lra/lia); no native_compute",
         "hand-written model Pure/Dims.v of index_of/range_indices/position_at/axis/tick_at for the three dimension kinds, "
@@ -317,4 +317,14 @@ def run(ctx):
         "samples": [streams[0][4][0], streams[1][4][0], streams[3][4][0], streams[5][4][0]],
         "exhaustive": False,
     })
+    # ---- dimensions whose ticks / labels come through a link convert positions exactly like dimensions that hold the
+    # same values themselves (differential, inside the dimension-link histories shared with C05 / C12)
+    if True:
+        import dimlink
+        cov = dimlink.stage(ctx, st, 400 if thorough else 60, 12, [])
+        ctx.coverage["linked_dimension_histories"] = cov["dimension_histories"]
+        ctx.coverage["linked_dimension_failures"] = cov["dimension_failures"]
+        ctx.coverage["rule"] += ("; plus histories on LINKED range and set dimensions: after every call index_of (3 modes) and "
+                                 "range_indices (2 modes) at every sample, midpoint and outside are compared with an unlinked "
+                                 "dimension holding the same ticks / labels")
     return st
